@@ -276,13 +276,15 @@ def must_pass(fl, fn, target, pred):
     return True
 
 
-def rule_E1(ctx, prop='C14', scope=None, floor=600):
+def rule_E1(ctx, prop='C14', scope=None, floor=600, own_only=False):
     res = RuleResult('E1', 'no const/static entry point of an in-scope class can write shared state '
                            '(mutable members, pointees of members, static storage)')
     prog = ctx.prog
     S = ctx.summaries
     classes = scope_closure(ctx, scope or (T.C14_SCOPE + T.C14_HELPERS))
     classes -= set(T.C14_EXCLUDED_CLASSES)
+    if own_only:
+        classes = set(scope)
     ents = entries(ctx, classes)
     res.floor('entry points', len(ents), floor)
     res.analysed['classes'] = len(classes)
@@ -295,6 +297,9 @@ def rule_E1(ctx, prop='C14', scope=None, floor=600):
     for f in sorted(ents, key=lambda x: (x.q, x.line)):
         w = S.W.get(f.usr, {})
         shared = {it: g for it, g in w.items() if it[0] in ('mut', 'ptr', 'static')}
+        if own_only:
+            # only state of the listed classes themselves (objects they merely refer to are not theirs)
+            shared = {it: g for it, g in shared.items() if it[0] != 'static' and it[1] in classes}
         if not shared:
             res.ob(True, {'entry': f.q, 'writes_shared': []} if res.obligations < 2 else None)
             continue
